@@ -18,6 +18,13 @@ Theorem cov_batch_any_limit k bs bc norm delim mem recs altrecs :
   concat (map (cov_row_bytes k bs bc norm delim (count_table k altrecs)) recs).
 Proof. unfold m_cov. rewrite batch_all. reflexivity. Qed.
 
+(* the batch loops of the two CGR writers: the file is the rows of all records in input order, whatever the limit *)
+Theorem cgrfile_batch_any_limit S mem recs : m_cgrfile_mem S mem recs = m_cgrfile S recs.
+Proof. unfold m_cgrfile_mem, m_cgrfile. rewrite batch_all. reflexivity. Qed.
+
+Theorem ocgrfile_batch_any_limit k S norm mem recs : m_ocgrfile_mem k S norm mem recs = m_ocgrfile k S norm recs.
+Proof. unfold m_ocgrfile_mem, m_ocgrfile. rewrite batch_all, map_length. reflexivity. Qed.
+
 (* ---------- mapped writer: every worker count and every complete schedule ---------- *)
 Lemma slots_all_rows (rows : list (list N)) W sched : (1 <= W)%nat ->
   complete (list N) W (exec (list N) rows W sched) ->
